@@ -2,7 +2,8 @@
 // value, in a type wide enough, with the digits/exponent the documentation promises.
 //
 // Five kinds of translation unit, selected by -DC15_MODE (see checks/C15.py):
-//   1  run-time cnl::_impl::parse<T>(char const*): one program per (T, base, short|long).
+//   1  run-time cnl::_impl::parse<T>(char const*): one program per (T, base, short|long), T at least 64 bits
+//      wide (narrower T make parse() ill-formed: brace-narrowing of a non-constant; Clang rejects it).
 //      short = EVERY token `[+-]? prefix digit (digit | ' digit)*` whose body is at most 6 (quick 5)
 //      characters over the reduced digit alphabets; long = every digit count up to the widest T
 //      (+2), first x fill x last digit, x separator layout x sign x zero padding.
@@ -26,6 +27,10 @@
 #ifndef C15_MODE
 #define C15_MODE 1
 #endif
+#ifndef C15_PART
+#define C15_PART 0  // index of the generated list this unit holds (part of the program name: names stay unique)
+#endif
+static std::string part_suffix() { return "#" + std::to_string(C15_PART); }
 
 using namespace cnl::literals;
 
@@ -186,16 +191,17 @@ template<class T>
 struct BaseSpec {
     int base;
     int stride;
-    const char* alphabet;
+    const char* alphabet;  // reduced digit alphabet (long tokens; short tokens in the quick tier)
+    const char* alphabet_short;  // short tokens in the thorough tier: all decimal / octal digits, 9 hex digits
     std::vector<std::string> prefixes;
 };
 static std::vector<BaseSpec> const& bases()
 {
     static std::vector<BaseSpec> b = {
-            {10, 18, "01459", {""}},
-            {16, 15, "0178fF", {"0x", "0X"}},
-            {8, 21, "0347", {"0"}},
-            {2, 63, "01", {"0b", "0B"}},
+            {10, 18, "01459", "0123456789", {""}},
+            {16, 15, "0178fF", "01789aAfF", {"0x", "0X"}},
+            {8, 21, "0347", "01234567", {"0"}},
+            {2, 63, "01", "01", {"0b", "0B"}},
     };
     return b;
 }
@@ -209,7 +215,7 @@ template<class T>
     if (!vf::begin(name, false)) return;
     Big const lo = cv::lowest_of<T>(), hi = cv::max_of<T>();
     Guarded buf;
-    std::string const alpha = bs.alphabet;
+    std::string const alpha = VF_TIER ? bs.alphabet_short : bs.alphabet;
     for (const char* sg : signs)
         for (auto const& pre : bs.prefixes)
             // the separator directly after the octal prefix (0'7) is a well-formed C++ token too
@@ -466,28 +472,28 @@ static void lit_check(int k, const char* text, bool negated, vf::Outcome const& 
 
 [[gnu::noinline]] static void lits_c()
 {
-    if (!vf::begin("literal<_c>", false)) return;
+    if (!vf::begin("literal<_c>" + part_suffix(), false)) return;
 #define KIND K_C
 #include "lit_c.inc"
 #undef KIND
 }
 [[gnu::noinline]] static void lits_cnl()
 {
-    if (!vf::begin("literal<_cnl>", false)) return;
+    if (!vf::begin("literal<_cnl>" + part_suffix(), false)) return;
 #define KIND K_CNL
 #include "lit_cnl.inc"
 #undef KIND
 }
 [[gnu::noinline]] static void lits_cnl2()
 {
-    if (!vf::begin("literal<_cnl2>", false)) return;
+    if (!vf::begin("literal<_cnl2>" + part_suffix(), false)) return;
 #define KIND K_CNL2
 #include "lit_cnl2.inc"
 #undef KIND
 }
 [[gnu::noinline]] static void lits_wide()
 {
-    if (!vf::begin("literal<_wide>", false)) return;
+    if (!vf::begin("literal<_wide>" + part_suffix(), false)) return;
 #define KIND K_WIDE
 #include "lit_wide.inc"
 #undef KIND
@@ -602,14 +608,14 @@ static const char* const factory_name[F_COUNT] = {"make_elastic_integer", "make_
 // (-1_c) is <1, power<0>>; make_static_integer(7_c) is static_integer<3>; make_static_number(444_c) is
 // static_number<7, 2>). from a run-time value: the digits of the source type, exponent 0
 // (make_elastic_scaled_integer(123) is <31>, (123U) is <32,..,unsigned>; make_static_*(int16_t{7}) is <15>).
-static void deduce_check(int f, std::string const& id, Big const& v, bool from_constant, int src_digits, vf::Outcome const& o, Props const& p)
+static void deduce_check(int f, std::string const& id, Big const& v, bool from_constant, int src_digits, vf::Outcome const& o, Props const& p, bool most_negative_of_source = false)
 {
     vf::validated();
     int const ud = v.bit_length(), tz = trailing_zero_bits(v);
     bool const pow2 = !v.is_zero() && ud == tz + 1;
     vf::counted(!v.is_zero() && (v.neg || tz > 0 || ud > 31));
     std::string const what = std::string(factory_name[f]) + "(" + (from_constant ? "constant<" + id + ">" : id) + ")";
-    std::string const vcls = v.is_zero() ? "zero" : std::string(v.neg ? "negative" : "positive") + (pow2 ? "_power_of_two" : "");
+    std::string const vcls = most_negative_of_source ? "most_negative_value_of_source_type" : v.is_zero() ? "zero" : std::string(v.neg ? "negative" : "positive") + (pow2 ? "_power_of_two" : "");
     if (vf::want_sample()) vf::sample(what + " -> " + (o.ok() ? props_str(p) : o.str()));
     std::string const fam = std::string(from_constant ? "constant/" : "value/") + factory_name[f];
     if (!o.ok()) {
@@ -704,7 +710,7 @@ template<int F, auto Value>
 template<int F>
 [[gnu::noinline]] void const_program()
 {
-    if (!vf::begin(std::string("deduce_constant<") + factory_name[F] + ">", false)) return;
+    if (!vf::begin(std::string("deduce_constant<") + factory_name[F] + ">" + part_suffix(), false)) return;
 #define FACT F
 #include "constants.inc"
 #undef FACT
@@ -746,7 +752,7 @@ template<int F, class Src>
             else if constexpr (F == F_CTAD_S) p = extract_any(cnl::scaled_integer{v});
 #endif
         });
-        deduce_check(F, id, Big(v), false, vals::bits_v<Src> - (vals::is_signed_v<Src> ? 1 : 0), o, p);
+        deduce_check(F, id, Big(v), false, vals::bits_v<Src> - (vals::is_signed_v<Src> ? 1 : 0), o, p, vals::is_signed_v<Src> && v == vals::min_v<Src>());
     }
 }
 
